@@ -129,6 +129,23 @@ def r2(F, rep):
     rep.count("calc_biases_loops", len(conts))
 
 
+def _local_carries(f, arg, res, what):
+    """Is one multiplicative factor of `arg` a local variable that is initialised with an expression containing `what`
+    and afterwards only ever scaled (`*=`)?  (`factor = n; factor *= grid value; add(force * factor)`)"""
+    decls = {d["d"]: d for d in f.walk() if d["k"] == "VarDecl" and d.get("st") == "local"}
+    for x in f.walk(arg):
+        if x["k"] != "DeclRefExpr" or x.get("d") not in decls:
+            continue
+        d = decls[x["d"]]
+        init = [k for k in X.kids(d) if k is not None]
+        if not init or what not in X.key(init[0], f, res):
+            continue
+        ws = [w for w, t in lvalue_writes(f) if X.strip(t)["k"] == "DeclRefExpr" and X.strip(t).get("d") == x["d"]]
+        if all(w.get("op") == "*=" for w in ws):
+            return True
+    return False
+
+
 def r3(F, rep):
     rep.rule("C08-R3", "colvarbias::communicate_forces adds nothing when apply_force is off, and its two add sites "
                        "(extended-Lagrangian bypass or not) pass the same expression, which contains time_step_factor")
@@ -146,7 +163,7 @@ def r3(F, rep):
                 ok, detail="a non-biasing bias (applyBias off, histogram) must contribute nothing", func=f.q)
         k = X.key(X.call_args(c)[0], f, res)
         keys[X.callee_name(c)] = k
-        has = "time_step_factor" in k
+        has = "time_step_factor" in k or _local_carries(f, X.call_args(c)[0], res, "time_step_factor")
         rep.add("C08-R3", "tsf|%s" % X.callee_name(c), f.loc(c),
                 "force passed to %s %s time_step_factor" % (X.callee_name(c), "is scaled by" if has else "does NOT contain"),
                 has, detail="a bias evaluated every n steps must apply n times its force", func=f.q)
